@@ -268,6 +268,17 @@ def main(eng) -> int:
                 os.remove(path)
             except OSError:
                 pass
+            # minimisation runs in this (parent) process; if the library keeps process-global state the minimised
+            # case may owe its failure to an earlier candidate.  Fall back to the case exactly as the worker ran it.
+            sviol = viol
+            path = core.write_replay(eng.PROPERTY, eng.ENGINE, a.seed, run_seed, case, viol, digest, tree)
+            if _confirm_in_fresh_interpreter(eng, path):
+                confirmed = True
+                break
+            try:
+                os.remove(path)
+            except OSError:
+                pass
         if confirmed:
             print(f"violation (index {idx}, run_seed {run_seed}, {total['viol_count'][core.cjson(sig)]}x in this batch): {sviol.message}")
             print(f"VIOLATION property={eng.PROPERTY} replay={path}", flush=True)
